@@ -199,6 +199,10 @@ def _enum(acc, shard, nshards, seed, tier, alphabet=None, length=3, full=False):
 
 def _strategy(tier):
     classes = [st.sampled_from(v) for v in TOK.values()] + [st.sampled_from(RAW_EXTRA)]
+    # arbitrary characters of any script / category (no lone surrogates: not valid text), and arbitrary %XX escapes
+    classes.append(st.characters(blacklist_categories=("Cs",)))
+    classes.append(st.characters(blacklist_categories=("Cs",)))
+    classes.append(st.tuples(st.sampled_from("0123456789abcdefABCDEF"), st.sampled_from("0123456789abcdefABCDEF")).map(lambda t: "%" + t[0] + t[1]))
     tok = st.one_of(*classes)
     return st.lists(tok, min_size=1, max_size=40).map(lambda ts: {"kind": "quote", "s": "".join(ts)})
 
